@@ -11,6 +11,9 @@ def sortNat (xs : List Nat) : List Nat :=
 /-- `n=<rows> k0:[p_v1,p_v2,…] k1:[…] …` — per number of consumed results, the number of elements pulled from each
 variable's domain (variables in increasing id order), as the demand-driven trace model predicts -/
 def run (s : Sexp) : String :=
+  -- `(silent k)`: construction scenario number k of the harness (match patterns, rule trees, predicates, …):
+  -- building is a pure function of the description in every model: no event is performed
+  if let .list [.atom "silent", _] := s then "model=silent\tspec=silent\ttrig=" else
   match parseCase s with
   | none => "error=bad-case"
   | some (w, q) =>
